@@ -21,6 +21,7 @@ def requests():
     return [
         Request(ML, fn=["stir::apply_.*", "stir::make_fan_data_remove_gaps_help", "stir::set_fan_data_add_gaps_help"], files=["/repo/src/buildblock/ML_norm.cxx"]),
         Request(ML, fn=["stir::(FanProjData|GeoData3D|BlockData3D|DetPairData)::.*"], files=["/repo/src/buildblock/ML_norm.cxx"]),
+        Request(ML, fn=["stir::iterate_efficiencies"], files=["/repo/src/buildblock/ML_norm.cxx"]),
     ]
 
 
@@ -288,6 +289,63 @@ def _this_chain(x):
     return False, []
 
 
+def rule_d_efficiencies_updated_in_place(ctx, fns):
+    """`Every efficiency iteration leaves the Kullback-Leibler distance no larger than before` is the property of the COORDINATE-WISE
+    update: detector i gets data_i / sum_j(eff_j * model_ij) computed from the efficiencies as they are NOW (those of the detectors
+    already visited included), one detector at a time.  Structure: the value stored in efficiencies[..i..] divides by a scalar local that
+    is declared, and accumulated from elements of the same efficiencies object, inside the very loop iteration that performs the store -
+    not by an element of an array of denominators filled for several detectors beforehand (a simultaneous update, which can overshoot)."""
+    RULE = "C20.d-efficiencies-updated-in-place"
+    n = 0
+    seen = set()
+    for f in fns:
+        if f.short != "iterate_efficiencies" or f.body is None or (f.file, f.body.line) in seen or not f.params:
+            continue
+        seen.add((f.file, f.body.line))
+        eff = "v%d" % f.params[0]["d"]
+        fid = f.qn + "(" + f.sig[:60] + ")"
+        from engine.algebra import LocalDefs
+
+        defs = LocalDefs(f)
+
+        def value_of(e):
+            e = e.strip()
+            if e.k == "DeclRefExpr" and e.get("dk") == "local":
+                i1 = defs.single_def(e.get("d"))
+                if i1 is not None:
+                    return i1.strip()
+            return e
+
+        stores = []
+        for m in f.walk():
+            if m.k in ("BinaryOperator", "CXXOperatorCallExpr") and m.op == "=" and len(m.c) >= 2:
+                lk = key(m.c[-2].strip())
+                if lk.startswith(eff + "[") and any(x.k in ("BinaryOperator",) and x.op == "/" for x in value_of(m.c[-1]).walk()):
+                    stores.append(m)
+        if not stores:
+            ctx.unrec(fid, "no store of data/denominator into the efficiencies found")
+            continue
+        for st in stores:
+            div = [x for x in value_of(st.c[-1]).walk() if x.k == "BinaryOperator" and x.op == "/"][0]
+            den = div.c[1].strip()
+            loops = [a for a in st.ancestors() if a.k == "ForStmt"]
+            ok, det = False, ""
+            if den.k == "DeclRefExpr" and den.get("dk") == "local" and re.fullmatch(r"(const )?(float|double)", (den.type or "").strip()):
+                d = den.get("d")
+                decl = [x for x in f.walk() if x.k == "VarDecl" and x.get("d") == d]
+                acc = [x for x in f.walk() if x.k == "CompoundAssignOperator" and x.op == "+=" and key(x.c[0].strip()) == "v%d" % d]
+                inner = loops[0] if loops else None
+                same_iter = inner is not None and decl and all(any(a is inner for a in x.ancestors()) for x in decl + acc)
+                reads_eff = bool(acc) and all(any(key(y).startswith(eff + "[") for y in x.c[1].walk()) for x in acc)
+                ok = bool(same_iter and reads_eff)
+                det = "the denominator is a scalar declared and summed over the current efficiencies inside the iteration that stores the new efficiency" if ok else "the denominator `%s` is not declared and accumulated from the efficiencies inside the loop iteration of the store (declared there: %s, accumulated there from the efficiencies: %s)" % (key(den, True), bool(same_iter), reads_eff)
+            else:
+                det = "the new efficiency divides by `%s`, which is not a scalar summed in this iteration: the denominators of several detectors are computed from the OLD efficiencies before any of them is updated (simultaneous instead of coordinate-wise update; the Kullback-Leibler distance can increase)" % key(den, True)
+            ctx.ob(RULE, fid, "store@%d" % st.line, ok, st.where(), det)
+            n += 1
+    return n
+
+
 def run(ctx):
     ctx.explanation = (
         "Decides for ML_norm: (a) in every apply_*(data, factors, apply) the two branches on `apply` update the same element with *= "
@@ -318,3 +376,8 @@ def run(ctx):
         return
     rule_c_symmetric_storage(ctx, u2.functions)
     ctx.require_count("C20.c-symmetric-storage-through-accessor", 6)
+    u3 = ctx.ex.get(reqs[2])
+    if u3 is None:
+        return
+    rule_d_efficiencies_updated_in_place(ctx, u3.functions)
+    ctx.require_count("C20.d-efficiencies-updated-in-place", 3)
